@@ -1,7 +1,7 @@
 (* C12 — Diagnostics identify the right source location.
    ONLY the pinned statements live here; every proof is `exact <lemma>`.
    They quantify over ALL push sequences, texts, spans, call stacks and call histories. *)
-From KV.diag Require Import DiagModel DiagSpec DiagProofs DiagExcerptProofs DiagRun DiagSpanStack.
+From KV.diag Require Import DiagModel DiagSpec DiagProofs DiagExcerptProofs DiagRun DiagSpanStack DiagResume.
 Open Scope N_scope.
 
 (* --- SourceMap (DebugInfo::push / get_source_span) ------------------------------------ *)
@@ -93,6 +93,26 @@ Theorem debug_prefix_line : forall pushes ip,
 Proof. exact DiagExcerptProofs.debug_prefix_line. Qed.
 Print Assumptions debug_prefix_line.
 
+(* --- instruction_ip across calls, returns, yields and resumes (execute_instructions / continue_running) ---- *)
+
+(* after ANY sequence of entries, instructions, jumps / caught errors, calls, returns, yields and resumes: while the
+   VM executes, the frame a fault (or `debug`) reports is the ip of the instruction about to be executed -- also for
+   the first instruction a generator runs after being resumed -- and each caller frame is the ip of its call *)
+Theorem fault_ip_current : forall ip0 stale es,
+    let v := rrun true ip0 stale es in
+    (r_active v = true -> fault_frame v = r_ip v)
+    /\ caller_frames v = map rf_call_at (r_frames v).
+Proof. exact DiagResume.fault_ip_current. Qed.
+Print Assumptions fault_ip_current.
+
+(* the refresh on entry of execute_instructions is what makes this true at a resume point: without it the first
+   instruction after a resume is attributed to the `yield` (the seeded change that the first version of this check missed) *)
+Theorem resume_without_refresh_refuted :
+  let v := rrun false 0 0 [REnter; RStep 3; RYield 2; RResume] in
+  r_active v = true /\ r_ip v = 5 /\ fault_frame v = 3.
+Proof. exact DiagResume.resume_without_refresh_refuted. Qed.
+Print Assumptions resume_without_refresh_refuted.
+
 (* --- span stack discipline of the compiler (abstract: the compile_* routines are not transcribed) ------- *)
 
 (* ANY tree of nodes whose scripts are locally well-bracketed (extra push_span / pop_span pairs, or a final
@@ -161,3 +181,8 @@ Example span_stack_example :
   /\ c_rec (compile (Node (mk_span 2 2 3 9) (AChild chain (AOp 3 ANil)) false) (mkC [] []))
      = [(1, mk_span 3 4 3 7); (2, mk_span 3 8 3 9); (3, mk_span 2 2 3 9)].
 Proof. split; [simpl; auto | vm_compute; reflexivity]. Qed.
+
+Example resume_example :
+  let v := rrun true 0 99 [REnter; RStep 3; RCall 4 40; RStep 2; RYield 2; RResume] in
+  r_active v = true /\ fault_frame v = 44 /\ caller_frames v = [3].
+Proof. vm_compute. repeat split; reflexivity. Qed.
